@@ -11,8 +11,8 @@
   `Circle.drawStyled` / `Ellipse.drawStyled` paint), and restates C06's offset laws (`stroke_area` / `fill_area` are
   `offset`s) over the regenerated `OffsetOutline::offset`.
 
-  NOT regenerated (generic over the colour / target type; tied by the `styled.*` streams only): `draw_styled`,
-  `StyledPixelsIterator<C>`, `PrimitiveStyle::{stroke_area, fill_area}`, `StyledScanline::draw_stroke(_and_fill)`.
+  The functions that DRAW (`draw_styled`, `Scanline::draw`, `draw_stroke(_and_fill)`) and `PrimitiveStyle` are in
+  `GeneratedDraw.lean`. NOT regenerated: the pixel path `StyledPixelsIterator<C>` (pinned in `CurveSrc.untranslated`).
   Guards as in `Props/C05/GeneratedCircle.lean` / `GeneratedEllipse.lean` (`DiamFitsI32` / `AxesFitI32` of the stroke
   area for `StyledScanlines::new`; `next` is unconditional).
 -/
